@@ -486,8 +486,11 @@ class Gen(object):
             env = dict(zip(in_names, in_types))
             self.used |= set(in_names)
             self.roots |= set(in_names)
+            keyed = rng.random() < 0.75     # `Op{y :- E(x, y)}`: result depends on the input
             if rng.random() < 0.5:
-                lit = self.combine(env, 1)
+                lit = (keyed and self.keyed_combine(
+                    env, rng.choice(in_names),
+                    in_types[0] if rng.random() < 0.7 else None)) or self.combine(env, 1)
                 t = env.pop(lit[1])
                 body = ('aggx', lit[2], lit[3], lit[4])
                 if t == 'N' and rng.random() < 0.3:
@@ -503,11 +506,13 @@ class Gen(object):
                 body, outs = [], []
                 for kind in kinds:
                     if kind == 'agg':
-                        lit = self.combine(env, 1)
+                        lit = (keyed and self.keyed_combine(env, rng.choice(in_names))) or \
+                            self.combine(env, 1)
                         body.append(lit)
                         outs.append((lit[1], env[lit[1]]))
                     else:
-                        body.append(self.negation(env, 1))
+                        body.append((keyed and self.keyed_negation(
+                            env, rng.choice(in_names))) or self.negation(env, 1))
                 if not outs and rng.random() < 0.5:
                     t = rng.choice(ATOMS)
                     e = self.expr(t, dict(zip(in_names, in_types)), 1, False)
@@ -533,6 +538,74 @@ class Gen(object):
         for v in sorted(self.used - self._reused):
             if v not in self.warm_names:
                 self.warm_names.append(v)
+
+    def keyed_call(self, inner, key, want_t=None):
+        """A call joining one column of a concrete predicate with the bound variable `key`
+        and binding another column to a fresh local.  -> (literal, (local, type)) | None"""
+        rng = self.rng
+        kt = inner[key]
+        cands = []
+        for n in self.concrete:
+            fields = self.sig[n]['fields']
+            for i, (fn, ft) in enumerate(fields):
+                if ft != kt:
+                    continue
+                for j, (gn, gt) in enumerate(fields):
+                    if j != i and gt in ATOMS and (want_t is None or gt == want_t):
+                        cands.append((n, i, j))
+        if not cands:
+            return None
+        n, i, j = rng.choice(cands)
+        fields = self.sig[n]['fields']
+        maxpos = max([k for k in (i, j) if isinstance(fields[k][0], int)] + [-1])
+        args, yv = [], None
+        for k, (fn, ft) in enumerate(fields):
+            if k == i:
+                args.append((fn, ('var', key)))
+            elif k == j:
+                yv = (self.newvar(inner, ft), ft)
+                args.append((fn, ('var', yv[0])))
+            elif isinstance(fn, int) and k < maxpos:
+                args.append((fn, ('var', self.newvar(inner, ft))))
+        return ('call', n, tuple(args), ()), yv
+
+    def keyed_combine(self, env, key, out_t=None):
+        """`v Op= (y :- E(key, y))` -> ('agg', v, op, e, body, form) | None"""
+        rng = self.rng
+        inner = dict(env)
+        tok = self._open_scope(self.o['p_sibling_reuse'])
+        r = self.keyed_call(inner, key, out_t) or (out_t and self.keyed_call(inner, key))
+        if not r:
+            self._close_scope(tok, inner)
+            return None
+        lit, (y, yt) = r
+        body = [lit]
+        if rng.random() < 0.25:
+            body.append(('cmp', rng.choice(['<', '<=', '>', '>=', '!=']), ('var', y),
+                         self.lit_of(yt)))
+        ops = [x for x in self.o['agg_ops'] if x in (
+            ('Sum', 'Min', 'Max', '+', 'Min', 'Max') if yt == 'N' else ('Min', 'Max'))]
+        op = rng.choice(ops or ['Max'])
+        self._close_scope(tok, inner)
+        v = self.newvar(env, yt)
+        self._agg_results = getattr(self, '_agg_results', []) + [v]
+        self.labels.add('combine')
+        self.labels.add('combine_' + op)
+        self.labels.add('keyed_combine')
+        return ('agg', v, op, ('var', y), tuple(body),
+                rng.choice([1, 2]) if op == '+' else rng.choice([0, 1, 2, 3]))
+
+    def keyed_negation(self, env, key):
+        """`~E(key, y)` with y local -> ('neg', body, 0) | None"""
+        inner = dict(env)
+        tok = self._open_scope(self.o['p_sibling_reuse_neg'])
+        r = self.keyed_call(inner, key)
+        self._close_scope(tok, inner)
+        if not r:
+            return None
+        self.labels.add('negation')
+        self.labels.add('keyed_negation')
+        return ('neg', (r[0],), 0)
 
     def _make_inj_plain(self, name):
         rng = self.rng
@@ -687,6 +760,14 @@ class Gen(object):
             if b:
                 bv = rng.choice(b)
                 e2 = {k: x for k, x in env.items() if k != bv}
+                if self.o['avoid_d11']:
+                    # open known finding C01 D11: `c in [.. t ..]` with t derived from the
+                    # bound c is refused ("circular dependency of In calls") when c comes
+                    # from an injected predicate's computed column: the list of a bound
+                    # variable's `in` mentions table-bound variables only
+                    if any(k not in self.roots for k in e2):
+                        self.excl('D11_in_list_over_derived_variable')
+                    e2 = {k: x for k, x in e2.items() if k in self.roots}
                 if lst[0] == 'list':
                     lst = ('list', tuple(self.expr(t, e2, 1)
                                          for _ in range(rng.randint(1, 3))))
